@@ -72,6 +72,7 @@ type Coordinator struct {
 	harnessErr string
 
 	// counters
+	faultReqs, faultHit                                                                                                  int
 	states, transitions, repeatRuns, repeatRequests, repSuppressed, probesOK, writeProbes, deaths, instances, bisections int
 	perClass                                                                                                             map[string]int
 	status                                                                                                               map[string]map[int]int
@@ -305,6 +306,10 @@ func (c *Coordinator) runBatch(st *stateNode, batch []string, fresh bool) ([]*Re
 				c.bisections += v
 			case "write_probe_failed_once_then_served":
 				c.transientWrites += v
+			case "requests_with_a_fault_point":
+				c.faultReqs += v
+			case "fault_points_reached":
+				c.faultHit += v
 			default:
 				if strings.HasPrefix(k, "foreign_") {
 					c.foreign[strings.TrimPrefix(k, "foreign_")] += v
@@ -809,8 +814,11 @@ func bodyRank(d Desc) int {
 	default:
 		r = 10
 	}
-	if d.CT != "j" {
+	if !strings.HasPrefix(d.CT, "j") {
 		r++
+	}
+	if strings.Contains(d.CT, "!") {
+		r += 2
 	}
 	if strings.HasPrefix(d.Act, "dup") {
 		r += 20
@@ -926,6 +934,7 @@ func (c *Coordinator) finish(alphaFull, alphaRed map[string][]string) int {
 		"requests_per_state_class": c.perClass, "routes": routes, "actions": actions, "body_classes": c.bodyClasses,
 		"repeat_family_runs": c.repeatRuns, "repeat_family_requests": c.repeatRequests, "repeat_family_suppressed_same_signature_as_reported_blocking": c.repSuppressed,
 		"status_codes_observed": statusOut, "probe_requests_answered_as_expected": c.probesOK, "write_read_probes": c.writeProbes, "write_probe_bisections": c.bisections, "write_probe_failed_once_then_served_observation": c.transientWrites,
+		"requests_with_one_replica_call_failing_in_transit": c.faultReqs, "of_those_the_call_was_made_and_failed": c.faultHit, "fault_points_node_dot_kth_call": OutboundFaults,
 		"worker_process_deaths": c.deaths, "instances_built": c.instances, "determinism_class_keys_identical": c.detOK, "determinism_state_keys_rechecked_on_rebuild": c.keyRechecks,
 		"expectations_demanded": c.expectCount, "observations_ambiguous_not_violations": topN(c.obs, 60), "foreign_oracle_events_not_counted": c.foreign,
 		"violations_listed": vlist, "state_classes_violating_on_their_own_not_explored": len(c.broken), "known_findings_hit": known, "violations_over_report_cap": overCap, "state_classes": classDoc(p),
